@@ -775,6 +775,17 @@ func (w *walker) forStmt(s *ast.ForStmt) {
 		w.opaque(s.Pos(), "loop post statement is not i++")
 		return
 	}
+	// a constant bound (a literal, a constant, len of a fixed-size array): the body runs exactly K times - the same wire
+	// effect as K unrolled copies with the index a constant
+	if tv := w.info().Types[be.Y]; tv.Value != nil {
+		if k, exact := constant.Int64Val(tv.Value); exact && k >= 0 && k <= 16 {
+			for i := int64(0); i < k; i++ {
+				w.env[idx] = vConst{V: constant.MakeInt64(i)}
+				w.block(s.Body.List)
+			}
+			return
+		}
+	}
 	loop := &Op{Kind: LOOP, Pos: s.Pos()}
 	if !w.loopBound(loop, be.Y) {
 		w.opaque(s.Pos(), "loop bound is neither a receiver field nor len of one")
